@@ -626,6 +626,9 @@ def run(ctx: Ctx) -> None:
         c08_callers = None
     if c08_callers is not None:
         c08_callers.run(ctx, run_cases)
+    # 7. text/JSON wrappers with documents whose serialisation fails at the start / middle / end
+    from harness.lib import c08_wrappers
+    c08_wrappers.run(ctx, run_cases)
 
 
 def replay(ctx: Ctx, rec: dict) -> int:
@@ -636,6 +639,8 @@ def replay(ctx: Ctx, rec: dict) -> int:
     try:
         from harness.lib import c08_callers
         comps.update({c.name: c for c in c08_callers.COMPONENTS})
+        from harness.lib import c08_wrappers
+        comps.update({c.name: c for c in c08_wrappers.COMPONENTS})
     except ImportError:
         pass
     return generic_replay(ctx, rec, comps)
